@@ -208,6 +208,9 @@ def check_case(run, nodes, pattern, g, scratch):
             run.violation(f"unreported_created_key@{kind}", f"node {i} wrote keys {sorted((appeared | changed) - rep_created)} that inspection does not report as created",
                           dict(witness, ctx=ctx0, node=i, reported_created=sorted(rep_created), appeared=sorted(appeared), changed=sorted(changed)))
         missing = {k for k in rep_created - rep_supp if k not in after}
+        if missing and nm.slicer and rec["data_in"] == []:
+            run.count("slicer_over_empty_collection_creates_nothing")  # element-wise mapping over zero elements
+            missing = set()
         if missing:
             run.violation(f"reported_created_key_absent@{kind}", f"node {i} is said to create {sorted(missing)} but the keys are absent after it ran",
                           dict(witness, ctx=ctx0, node=i, reported_created=sorted(rep_created), after_keys=sorted(after)))
